@@ -65,7 +65,7 @@ func directed() []string {
 		"<", ">", "<=", ">=", "*", "^", "a^", "^a", "a>b", "a<", "?", "a?", "#", "a#", "#a", "-", "--", "_", "&", "a&b", "|", ";",
 		"\\", "\\n", "a\\", "'", "''", "\"", "\"\"", "'\"", "$", "$a", "a$", "(", ")", "[", "]", "{", "}", "a b", " ", "\r", "\r\n", "^\n",
 		"\u00a0", "\u00ad", "\u2028", "\ufeff", "\ufffd", "a\ufffdb", "\U0010ffff", "\U000e0001", "\xc3", "\xc3(", "\xa9", "\xe2\x80", "\xf0\x9f\x98",
-		"\xed\xa0\x80", "\xc0\x80", "\xf4\x90\x80\x80", "\xff\xfe", "a\x00b", "\x1b[0m", "é", "你好", "😀", "é"}
+		"\xed\xa0\x80", "\xc0\x80", "\xf4\x90\x80\x80", "\xff\xfe", "a\x00b", "\x1b[0m", "\u00e9", "\u4f60\u597d", "\U0001f600", "e\u0301"}
 	for i := 0; i < 256; i++ {
 		out = append(out, string([]byte{byte(i)}), "a"+string([]byte{byte(i)}), string([]byte{byte(i)})+"a")
 	}
